@@ -291,4 +291,410 @@ theorem popBox_spec (v : Variant) (frames : List Frame) (m : Bool) (f : Frame) (
     · intro b hb
       exact k4 b (by simp at hb ⊢; right; exact hb)
 
+
+/-! ### the `for` loop over the frames that are ready -/
+
+theorem poll_es (sched : Sched) (s : XState) : (poll sched s).1.es = s.es := by
+  unfold poll; simp only; split
+  · rfl
+  · split <;> rfl
+
+theorem poll_multi (sched : Sched) (s : XState) : (poll sched s).1.multi = s.multi := by
+  unfold poll; simp only; split
+  · rfl
+  · split <;> rfl
+
+theorem afterAdd_stop (sched : Sched) (s : XState) (es' : List Entry) (r : AddResult) (h : r.stop = true) :
+    (afterAdd sched s es' r).2 = true ∧ (afterAdd sched s es' r).1.es = es' ∧
+    (afterAdd sched s es' r).1.multi = s.multi ∧ (afterAdd sched s es' r).1.it = 2 ∧
+    (afterAdd sched s es' r).1.dead = true := by
+  simp only [afterAdd, h, if_true]
+  refine ⟨trivial, ?_, ?_, trivial, trivial⟩
+  · simp only [poll_es]
+  · simp only [poll_multi]
+
+theorem afterAdd_noStop (sched : Sched) (s : XState) (es' : List Entry) (r : AddResult) (h : r.stop = false) :
+    afterAdd sched s es' r
+      = ({ s with es := es', success := r.success, status := some r.status, stepNr := s.stepNr + 1 }, false) := by
+  simp [afterAdd, h]
+
+def BHyp (k : Kind) (s : XState) : Prop :=
+  match k with
+  | .lammps _ => s.multi = false → s.pos.length ≤ 1
+  | .cp2k _ => True
+
+def BatchPost (k : Kind) (c : Cfg) (frames : List Frame) : BatchRes → Prop
+  | .done s' => Inv k c frames s'
+  | .stopped s' => Final k c frames s' ∧ s'.it = 2 ∧ s'.dead = true
+  | .err _ s' => Final k c frames s'
+
+theorem batch_inv (k : Kind) (c : Cfg) (sched : Sched) (frames : List Frame) :
+    ∀ (n : Nat) (s : XState), Inv k c frames s → BHyp k s → BatchPost k c frames (batch k c sched n s) := by
+  intro n
+  induction n with
+  | zero => intro s h _; simpa [batch, BatchPost] using h
+  | succ n ih =>
+    intro s h hB
+    obtain ⟨h1, h2, h3, h4, h5⟩ := h
+    cases k with
+    | lammps v =>
+      simp only [batch]
+      cases hpos : s.pos with
+      | nil => simp only [BatchPost]; exact h1
+      | cons f rest =>
+        simp only
+        rw [hpos] at h3 h4
+        obtain ⟨k1, k2, k3, k4⟩ := h5
+        rw [hpos] at k1 k2 k3
+        have hB' : s.multi = false → (f :: rest).length ≤ 1 := by
+          intro hm; have := hB hm; rw [hpos] at this; exact this
+        obtain ⟨b, boxes', hpop, hP, q1, q2, q3, q4⟩ := popBox_spec v frames s.multi f rest s.boxes k1 k2 k3 k4 hB'
+        obtain ⟨hf, hrest⟩ := cons_prefix_drop _ _ _ _ h3
+        simp only [hpop]
+        cases hrec : record c s.es s.stepNr f.cid b f.vel with
+        | none => simp only [BatchPost]; exact h1
+        | some pr =>
+          obtain ⟨es', r⟩ := pr
+          simp only
+          have hsn : Rec c frames (BoxP (.lammps v) frames s.multi) (s.es ++ [mkEntry c s.stepNr f.cid b f.vel]) := by
+            rw [h2]; exact Rec.snoc h1 (by rw [← h2]; exact hf) hP
+          by_cases hs : r.stop = true
+          · obtain ⟨a1, a2, a3, a4, a5⟩ := afterAdd_stop sched { s with pos := rest, boxes := boxes' } es' r hs
+            simp only [a1, if_true, BatchPost]
+            refine ⟨?_, a4, a5⟩
+            unfold Final
+            rw [a2, a3]
+            rcases record_es _ _ _ _ _ _ _ _ hrec with e | e
+            · rw [e]; exact h1
+            · rw [e]; exact hsn
+          · have hs' : r.stop = false := by simpa using hs
+            rw [afterAdd_noStop _ _ _ _ hs']
+            simp only [Bool.false_eq_true, if_false]
+            apply ih
+            · have e := record_noStop _ _ _ _ _ _ _ _ hrec hs'
+              refine ⟨by simpa [e] using hsn, by simp [e, h2], by simpa using hrest, ?_, ?_⟩
+              · simp only [h4, List.length_cons]; omega
+              · exact ⟨q1, q2, q3, q4⟩
+            · intro hm
+              have := hB' hm
+              simp only [List.length_cons] at this ⊢
+              omega
+    | cp2k b0 =>
+      simp only [batch]
+      obtain ⟨k1, k2⟩ := h5
+      cases hpos : s.pos with
+      | nil => simp only [BatchPost]; exact h1
+      | cons p prest =>
+        cases hvel : s.vels with
+        | nil => simp only [BatchPost]; exact h1
+        | cons w vrest =>
+          simp only
+          rw [hpos] at h3 h4
+          rw [hvel] at k1 k2
+          obtain ⟨hf, hrest⟩ := cons_prefix_drop _ _ _ _ h3
+          obtain ⟨hw, hvrest⟩ := cons_prefix_drop _ _ _ _ k1
+          have hpw : p = w := by rw [hf] at hw; exact Option.some.inj hw
+          cases hrec : record c s.es s.stepNr p.cid b0 w.vel with
+          | none => simp only [BatchPost]; exact h1
+          | some pr =>
+            obtain ⟨es', r⟩ := pr
+            simp only
+            have hsn : Rec c frames (BoxP (.cp2k b0) frames s.multi) (s.es ++ [mkEntry c s.stepNr p.cid b0 w.vel]) := by
+              rw [h2, ← hpw]; exact Rec.snoc h1 (by rw [← h2]; exact hf) rfl
+            by_cases hs : r.stop = true
+            · obtain ⟨a1, a2, a3, a4, a5⟩ := afterAdd_stop sched { s with pos := prest, vels := vrest } es' r hs
+              simp only [a1, if_true, BatchPost]
+              refine ⟨?_, a4, a5⟩
+              unfold Final
+              rw [a2, a3]
+              rcases record_es _ _ _ _ _ _ _ _ hrec with e | e
+              · rw [e]; exact h1
+              · rw [e]; exact hsn
+            · have hs' : r.stop = false := by simpa using hs
+              rw [afterAdd_noStop _ _ _ _ hs']
+              simp only [Bool.false_eq_true, if_false]
+              apply ih
+              · have e := record_noStop _ _ _ _ _ _ _ _ hrec hs'
+                refine ⟨by simpa [e] using hsn, by simp [e, h2], by simpa using hrest, ?_, ?_, ?_⟩
+                · simp only [h4, List.length_cons]; omega
+                · simpa using hvrest
+                · simp only [k2, List.length_cons]; omega
+              · trivial
+
+
+/-! ### the `while` loop -/
+
+theorem poll_dead (sched : Sched) (s : XState) (h : s.dead = true) : poll sched s = (tick sched s, false) := by
+  unfold poll
+  simp only
+  have : (tick sched s).dead = true := h
+  simp [this]
+
+theorem endIter_stopped (sched : Sched) (s : XState) (h1 : s.it = 2) (h2 : s.dead = true) :
+    (endIter sched s).it = 2 ∧ (endIter sched s).dead = true := by
+  unfold endIter
+  simp only
+  have hd : (tick sched s).dead = true := h2
+  rw [poll_dead sched (tick sched s) hd]
+  have hit : (tick sched (tick sched s)).it = 2 := h1
+  simp only [hit]
+  refine ⟨by simp [hit], ?_⟩
+  split <;> exact h2
+
+theorem Inv.setMulti {k : Kind} {c : Cfg} {frames : List Frame} {s : XState} (x : Bool)
+    (h : Inv k c frames s) : Inv k c frames { s with multi := s.multi || x } := by
+  obtain ⟨h1, h2, h3, h4, h5⟩ := h
+  have hm : (s.multi || x) = false → s.multi = false := by
+    intro e; cases hsm : s.multi <;> simp_all
+  refine ⟨Rec.mono (fun f b hb => BoxP.weaken hm hb) h1, h2, h3, h4, ?_⟩
+  cases k with
+  | lammps v =>
+    obtain ⟨k1, k2, k3, k4⟩ := h5
+    exact ⟨k1, k2, fun e => k3 (hm e), k4⟩
+  | cp2k b0 => exact h5
+
+theorem readerLoop_final (k : Kind) (c : Cfg) (sched : Sched) (frames : List Frame) :
+    ∀ (fuel : Nat) (s : XState),
+      (Inv k c frames s ∨ (Final k c frames s ∧ s.it = 2 ∧ s.dead = true)) →
+      Final k c frames (readerLoop k c sched frames fuel s).1 := by
+  intro fuel
+  induction fuel with
+  | zero =>
+    intro s h
+    simp only [readerLoop]
+    rcases h with h | h
+    · exact h.final
+    · exact h.1
+  | succ fuel ih =>
+    intro s h
+    simp only [readerLoop]
+    rcases h with h | ⟨hF, hit, hdead⟩
+    · have hp := Inv.poll sched h
+      generalize hps : poll sched s = ps at hp
+      obtain ⟨s1, alive⟩ := ps
+      simp only at hp ⊢
+      split
+      · cases hr : readNew k frames s1 with
+        | none => exact hp.final
+        | some s2 =>
+          simp only
+          obtain ⟨hi2, _, _, _⟩ := Inv.readNew hp hr
+          have hi3 := Inv.setMulti (decide (2 ≤ batchCount k s2)) hi2
+          have hB : BHyp k { s2 with multi := s2.multi || decide (2 ≤ batchCount k s2) } := by
+            cases k with
+            | lammps v =>
+              intro hm
+              have hm' : (s2.multi || decide (2 ≤ s2.pos.length)) = false := hm
+              have : decide (2 ≤ s2.pos.length) = false := by
+                cases hsm : s2.multi <;> simp [hsm] at hm' ⊢ <;> omega
+              simp at this
+              show s2.pos.length ≤ 1
+              omega
+            | cp2k b0 => trivial
+          have hb := batch_inv k c sched frames (batchCount k s2) _ hi3 hB
+          generalize batch k c sched (batchCount k s2)
+            { s2 with multi := s2.multi || decide (2 ≤ batchCount k s2) } = br at hb
+          cases br with
+          | done s4 => exact ih _ (Or.inl (Inv.endIter sched hb))
+          | stopped s4 =>
+            obtain ⟨b1, b2, b3⟩ := hb
+            exact ih _ (Or.inr ⟨Final.endIter sched b1, endIter_stopped sched s4 b2 b3⟩)
+          | err e s4 => exact hb
+      · exact hp.final
+    · rw [poll_dead sched s hdead]
+      have hit' : (tick sched s).it = 2 := hit
+      simp only [hit']
+      simp only [Bool.false_or, Nat.reduceLeDiff, decide_false, Bool.false_eq_true, if_false]
+      exact hF
+
+
+/-! ### the whole call -/
+
+theorem ite_result_es (s : XState) (p : Prop) [Decidable p] (e1 e2 : Option Err) :
+    (if p then s.result e1 else s.result e2).es = s.es := by split <;> rfl
+theorem ite_result_multi (s : XState) (p : Prop) [Decidable p] (e1 e2 : Option Err) :
+    (if p then s.result e1 else s.result e2).multi = s.multi := by split <;> rfl
+theorem ite_result_dead (s : XState) (p : Prop) [Decidable p] (e1 e2 : Option Err) :
+    (if p then s.result e1 else s.result e2).dead = s.dead := by split <;> rfl
+theorem ite_result_terminated (s : XState) (p : Prop) [Decidable p] (e1 e2 : Option Err) :
+    (if p then s.result e1 else s.result e2).terminated = s.terminated := by split <;> rfl
+theorem ite_result_raised (s : XState) (p : Prop) [Decidable p] (e1 e2 : Option Err) :
+    (if p then s.result e1 else s.result e2).raised = if p then e1 else e2 := by split <;> rfl
+
+theorem waitFile_inv (k : Kind) (c : Cfg) (frames : List Frame) (sched : Sched) :
+    ∀ (fuel : Nat) (s s' : XState), Inv k c frames s → waitFile sched fuel s = some s' → Inv k c frames s' := by
+  intro fuel
+  induction fuel with
+  | zero => intro s s' _ h; simp [waitFile] at h
+  | succ fuel ih =>
+    intro s s' hi h
+    simp only [waitFile] at h
+    split at h
+    · simp only [Option.some.injEq] at h; subst h; exact hi
+    · have hp := Inv.poll sched (Inv.tick sched hi)
+      generalize poll sched (tick sched s) = ps at hp h
+      obtain ⟨s1, alive⟩ := ps
+      simp only at hp h
+      split at h
+      · exact ih s1 s' hp h
+      · simp only [Option.some.injEq] at h; subst h; exact hp
+
+/-- **Every schedule.**  The path returned (or left behind when raising) by the LAMMPS/CP2K loop records the
+    first `es.length` frames the program wrote, in order, each once, with their own coordinates and velocity;
+    the box satisfies `BoxP`. -/
+theorem extRun_rec (k : Kind) (c : Cfg) (sched : Sched) (code : Int) (frames : List Frame) (fuel : Nat) :
+    Rec c frames (BoxP k frames (extRun k c sched code frames fuel).multi) (extRun k c sched code frames fuel).es := by
+  unfold extRun
+  cases hw : waitFile sched fuel XState.init with
+  | none => exact Rec.nil _ _ _
+  | some s =>
+    simp only
+    have hi := waitFile_inv k c frames sched fuel _ _ (Inv.init k c frames) hw
+    have hp := Inv.poll sched hi
+    generalize poll sched s = ps at hp
+    obtain ⟨s1, alive⟩ := ps
+    simp only at hp ⊢
+    have hF : Final k c frames
+        (if (alive || decide (code = 0)) = true then readerLoop k c sched frames fuel s1 else (s1, none)).1 := by
+      split
+      · exact readerLoop_final k c sched frames fuel s1 (Or.inl hp)
+      · exact hp.final
+    generalize (if (alive || decide (code = 0)) = true then readerLoop k c sched frames fuel s1 else (s1, none)) = se
+      at hF
+    obtain ⟨s2, e⟩ := se
+    cases e with
+    | some e => exact hF
+    | none =>
+      simp only [ite_result_es, ite_result_multi]
+      exact hF
+
+/-! ### the program is stopped; a failure raises -/
+
+theorem poll_not_alive (sched : Sched) (s : XState) (h : (poll sched s).2 = false) : (poll sched s).1.dead = true := by
+  unfold poll at h ⊢
+  simp only at h ⊢
+  split
+  · assumption
+  · rename_i hd
+    split
+    · rename_i ha
+      simp [hd, ha] at h
+    · rfl
+
+theorem batch_err (k : Kind) (c : Cfg) (sched : Sched) :
+    ∀ (n : Nat) (s s' : XState) (e : Err), batch k c sched n s = .err e s' → e = .index := by
+  intro n
+  induction n with
+  | zero => intro s s' e h; simp [batch] at h
+  | succ n ih =>
+    intro s s' e h
+    cases k with
+    | lammps v =>
+      simp only [batch] at h
+      split at h
+      · simp only [BatchRes.err.injEq] at h; exact h.1.symm
+      · split at h
+        · simp only [BatchRes.err.injEq] at h; exact h.1.symm
+        · split at h
+          · simp only [BatchRes.err.injEq] at h; exact h.1.symm
+          · split at h
+            · simp at h
+            · exact ih _ _ _ h
+    | cp2k b0 =>
+      simp only [batch] at h
+      split at h
+      · split at h
+        · simp only [BatchRes.err.injEq] at h; exact h.1.symm
+        · split at h
+          · simp at h
+          · exact ih _ _ _ h
+      · simp only [BatchRes.err.injEq] at h; exact h.1.symm
+
+/-- the loop is only left normally after `exe.poll()` returned a return code -/
+theorem readerLoop_exit (k : Kind) (c : Cfg) (sched : Sched) (frames : List Frame) :
+    ∀ (fuel : Nat) (s : XState),
+      ((readerLoop k c sched frames fuel s).2 = none → (readerLoop k c sched frames fuel s).1.dead = true) ∧
+      (∀ e, (readerLoop k c sched frames fuel s).2 = some e → e = .index ∨ e = .fuel) := by
+  intro fuel
+  induction fuel with
+  | zero => intro s; simp [readerLoop]
+  | succ fuel ih =>
+    intro s
+    simp only [readerLoop]
+    have hpd := poll_not_alive sched s
+    generalize poll sched s = ps at hpd
+    obtain ⟨s1, alive⟩ := ps
+    simp only at hpd ⊢
+    split
+    · cases hr : readNew k frames s1 with
+      | none => simp
+      | some s2 =>
+        simp only
+        generalize hb : batch k c sched (batchCount k s2)
+          { s2 with multi := s2.multi || decide (2 ≤ batchCount k s2) } = br
+        cases br with
+        | done s4 => exact ih _
+        | stopped s4 => exact ih _
+        | err e s4 =>
+          have := batch_err k c sched _ _ _ _ hb
+          simp [this]
+    · rename_i hc
+      have : alive = false := by
+        cases alive <;> simp_all
+      exact ⟨fun _ => hpd this, by simp⟩
+
+/-- **The external program is stopped when propagation ends** (normal return or RuntimeError), every schedule. -/
+theorem extRun_program_stopped (k : Kind) (c : Cfg) (sched : Sched) (code : Int) (frames : List Frame) (fuel : Nat)
+    (h : (extRun k c sched code frames fuel).raised = none ∨ (extRun k c sched code frames fuel).raised = some .runtime) :
+    (extRun k c sched code frames fuel).dead = true := by
+  unfold extRun at h ⊢
+  cases hw : waitFile sched fuel XState.init with
+  | none => simp [hw, XState.result] at h
+  | some s =>
+    simp only [hw] at h ⊢
+    have hpd := poll_not_alive sched s
+    generalize poll sched s = ps at hpd h
+    obtain ⟨s1, alive⟩ := ps
+    simp only at hpd h ⊢
+    by_cases hc : (alive || decide (code = 0)) = true
+    · simp only [hc, if_true] at h ⊢
+      obtain ⟨hx1, hx2⟩ := readerLoop_exit k c sched frames fuel s1
+      generalize readerLoop k c sched frames fuel s1 = se at hx1 hx2 h
+      obtain ⟨s2, e⟩ := se
+      cases e with
+      | some e =>
+        simp only [XState.result] at h
+        rcases hx2 e rfl with rfl | rfl <;> simp at h
+      | none =>
+        simp only [ite_result_dead] at hx1 h ⊢
+        exact hx1 trivial
+    · simp only [hc] at h ⊢
+      have ha : alive = false := by cases alive <;> simp_all
+      simp only [Bool.false_eq_true, if_false, ite_result_dead]
+      exact hpd ha
+
+/-- **A non-zero exit code raises** unless `add_to_path` had already said stop (`*_was_terminated`). -/
+theorem extRun_nonzero_exit (k : Kind) (c : Cfg) (sched : Sched) (code : Int) (frames : List Frame) (fuel : Nat)
+    (hcode : code ≠ 0) (h : (extRun k c sched code frames fuel).raised = none) :
+    (extRun k c sched code frames fuel).terminated = true := by
+  unfold extRun at h ⊢
+  cases hw : waitFile sched fuel XState.init with
+  | none => simp [hw, XState.result] at h
+  | some s =>
+    simp only [hw] at h ⊢
+    generalize poll sched s = ps at h
+    obtain ⟨s1, alive⟩ := ps
+    simp only at h ⊢
+    generalize (if (alive || decide (code = 0)) = true then readerLoop k c sched frames fuel s1 else (s1, none)) = se at h
+    obtain ⟨s2, e⟩ := se
+    cases e with
+    | some e => simp [XState.result] at h
+    | none =>
+      simp only [ite_result_raised, ite_result_terminated] at h ⊢
+      cases ht : s2.terminated with
+      | true => rfl
+      | false =>
+        exfalso
+        cases hk : s2.killed <;> simp [ht, hk, hcode] at h
+
 end Infretis.EngineLoops
